@@ -14,6 +14,8 @@ CLAIMED = {
          'Decides who may write, advance and reset the virtual clock, that every advance is by a difference proven non-negative by a dominating guard, that run() polls before every advance and advances to the front of the timer queue, and who writes the stop flag. FIFO of posted handlers (boost) and no-event-lost-after-restart are not decided.', '4/C02'),
  'C03': ('static: timer typestate (queued <=> !m_expired) as CFG must-precede/must-follow rules, writer tables, tie-order idiom check, handler ownership flow',
          'Decides the typestate pairing of queue membership and m_expired on every path, that the sort key is never written while queued, upper_bound tie order, cancel/re-arm/destructor abort reachability and return values per path, and that fire() owns, clears and posts the handler. Firing instants are not decided.', '4/C03'),
+ 'C04': ('static: handler-value flow analysis (own/borrow/copy/dispatch), forward dataflow "slot known empty" with callee summaries on the CFG, call-graph reachability from initiating functions',
+         'Decides that every completion handler is owned by a slot or by a closure consumed by post()/a timer, never invoked/dispatched inline on a path from an initiating call, never borrowed or copied, never overwritten or cleared while possibly set, that cancel/close/destructor leave every slot empty with operation_aborted bound, and that posted closures do not capture this. Exactly-once across arbitrary interleavings of several operations is not decided.', '4/C04'),
 }
 
 NOT_YET = {}
